@@ -17,16 +17,20 @@ def main(tier):
     else:
         pages = list(range(0xf2))
         restarts = [(j, rnd.randrange(0xf2), rnd.randrange(0xf2)) for j in range(0, 163)]
-    jobs = [('memory', 'VerifDma', dict(cart(p), page=p, restart=-1, page2=0, after=i % 2, last=[0x9c, 0x24, 0x08, 0x60][i % 4])) for i, p in enumerate(sorted(set(pages)))]
+    jobs = [('memory', 'VerifDma', dict(cart(p), page=p, restart=-1, page2=0, after=i % 2, last=[0x9c, 0x24, 0x08, 0x60][i % 4], wr=0)) for i, p in enumerate(sorted(set(pages)))]
     for j, p1, p2 in restarts:
         if 0xa0 <= p1 <= 0xbf or 0xa0 <= p2 <= 0xbf:
             p1, p2 = 0xc0, 0x80
-        jobs.append(('memory', 'VerifDma', dict(cart(p2), page=p1, restart=j, page2=p2, after=j % 2, last=[0x4c, 0x98][j % 2])))
+        jobs.append(('memory', 'VerifDma', dict(cart(p2), page=p1, restart=j, page2=p2, after=j % 2, last=[0x4c, 0x98][j % 2], wr=0)))
+    # a source byte rewritten by the CPU during the transfer (work RAM / echo / VRAM sources): OAM holds the value as it was when copied
+    for t, pg in ((1, 0xc0), (2, 0xd3), (60, 0xc7), (100, 0x80), (159, 0xe5), (161, 0xdf)) if tier == 'quick' else [(t, [0xc0, 0x85, 0xe1, 0xdf][t % 4]) for t in range(1, 162)]:
+        jobs.append(('memory', 'VerifDma', dict(cart(pg), page=pg, restart=-1, page2=0, after=t % 2, last=0x24, wr=t)))
     ck.bounds = {'source page': 'configuration (quick: class boundaries 00,3F,40,7F,80,9F,A0,BF,C0,DF,E0,F1 plus 4 seeded pages; thorough: every page 00-F1); all source memory contents, OAM contents and the probed OAM address symbolic',
                  'cycles': '162 machine cycles of Mapper.EndMachineCycle with a concrete cycle count; OAM read (any FE00-FEFF address) checked after the start and after each of the first 161 cycles',
                  'restart': 'second FF46 write after j cycles of a running transfer (quick: j in 1,80,160,161; thorough: every j 0..162)',
                  'mode 2': 'the OAM corruption window may be open during the transfer (PPU last access at a configured sprite address); Corrupt() runs after every probe read as the CPU does each machine cycle',
-                 'outside': 'source bytes changing during the transfer; pages F2-FF; PPU access to OAM during DMA'}
+                 'source changing': 'one CPU write (any of the 160 source bytes, any value) after t cycles of the transfer (quick: t in 1,2,60,100,159,161; thorough: every t): a byte already fetched keeps its old value in OAM, a later one gets the new value',
+                 'outside': 'pages F2-FF; PPU access to OAM during DMA'}
     ck.assumptions = ['source memory constant during the transfer', 'cartridge: ROM-only 32 KiB (MBC1+RAM for sources A0-BF, RAM enabled)']
     ck.run(jobs, timeout_ms=300000, max_unwind=400, interp_budget_s=300, solve_budget_s=400)
     ck.finish(explanation='OAM DMA through the real Mapper: blocking, completion within 162 cycles, copied bytes equal the source read through the decoder before the transfer')
